@@ -336,6 +336,9 @@ theorem cinv_applyOp (c : CS) (o : COp) (h : CInv c) : CInv (applyOp c o) := by
   | allow => exact ⟨hf, hp, hn⟩
   | inb => exact ⟨hf, hp, hn⟩
   | poll => exact h
+  | closeW => exact h
+  | closeWI => exact h
+  | write => exact h
   | adv d => exact ⟨fun hb d' hd => hf hb d' hd, by show c.lastBusy ≤ c.now + d; omega, hn⟩
   | respOut =>
     simp only [applyOp]; split
@@ -390,6 +393,9 @@ theorem cinv_cstep (c : CS) (o : COp) (h : CInv c) : CInv (cstep c o).1 := by
     | ignore => exact cinv_touch _ (cinv_applyOp c _ h)
     | dropIgn => exact cinv_touch _ (cinv_applyOp c _ h)
     | adv d => exact cinv_touch _ (cinv_applyOp c _ h)
+    | closeW => exact cinv_touch _ (cinv_applyOp c _ h)
+    | closeWI => exact cinv_touch _ (cinv_applyOp c _ h)
+    | write => exact cinv_touch _ (cinv_applyOp c _ h)
 
 /-- the state after an op history, from `Connection::new` -/
 def creach (timeout maxNegIn : Nat) (ops : List COp) : CS :=
@@ -496,6 +502,12 @@ theorem spec_close_ok (timeout maxNegIn : Nat) (ops : List COp) :
     have hc' : (cstep (creach timeout maxNegIn ops) .poll).2 = some .closed := by simpa using hc
     obtain ⟨h1, h2, h3⟩ := close_after_last_busy timeout maxNegIn ops hc'
     simp [h1, h2, h3]
+
+/-- a held stream whose write half was closed still keeps the connection open past the timeout; it
+closes only a full timeout after the stream is dropped -/
+example : ((Machine.run cstep (cinit 5 2)
+    [.inb, .poll, .respIn, .poll, .closeW, .adv 50, .poll, .drop, .poll, .adv 4, .poll, .adv 1, .poll]).2.filterMap id)
+    = [.pending, .pending, .pending, .pending, .pending, .closed] := by decide
 
 /-- the scenario of the seeded defect: idle (timer armed at 0) → busy past the deadline → idle again.
 The model re-arms the timer; the connection is NOT closed at the first idle poll after the busy period. -/
